@@ -479,6 +479,10 @@ func (s *IndexedState) deleteDependencies(ctx *Context, id string) error {
 	Log(DEBUG, ctx, "IndexedState.deleteDependencies", "location", s.Name, "id", id, "found", len(srs.Found))
 
 	for _, sr := range srs.Found {
+		if fact, have := s.IdToFact[sr.Id]; have && !dependsOn(fact, id) {
+			// The id looks like a variable and matched too much.
+			continue
+		}
 		Log(DEBUG, ctx, "IndexedState.deleteDependencies",
 			"location", s.Name, "id", id, "target", sr.Id)
 		if _, err := s.rem(ctx, sr.Id); nil != err {
